@@ -124,6 +124,8 @@ pub enum Ev {
     Ping { ctx: usize },
     GSpawn { name: usize, ctx: usize },
     GSpawnBad { name: usize, ctx: usize },
+    /// non-duplex generator whose pipeline ends at once (it cycles start/recv/stop every second)
+    GSpawnFinite { name: usize, ctx: usize },
     CDef { name: usize, ctx: usize },
     CDefBad { name: usize, ctx: usize },
     /// re-define with a byte-identical script (the latest define still wins: its id stamps the results)
@@ -143,6 +145,7 @@ fn handler_src(name: &str) -> String {
 struct Model {
     handlers: BTreeMap<(usize, usize), Scru128Id>,
     gens: BTreeMap<(usize, usize), Scru128Id>,
+    finite: BTreeMap<(usize, usize), Scru128Id>,
     cmds: BTreeMap<(usize, usize), (Scru128Id, String)>,
     old_triggers: Vec<Scru128Id>,
     old_calls: Vec<Scru128Id>,
@@ -190,12 +193,20 @@ pub fn run_history(h: &[Ev], restart_after: usize, sig: &str) -> (Vec<F>, String
             m.old_triggers.push(f.id);
         }
         Ev::GSpawn { name, ctx } => {
-            if m.gens.contains_key(&(*ctx, *name)) {
+            if m.gens.contains_key(&(*ctx, *name)) || m.finite.contains_key(&(*ctx, *name)) {
                 return;
             }
             let f = r.append(&format!("{}.spawn", GN[*name]), Some(ctxs[*ctx]), Some(&format!("lines | each {{|x| $\"{}:($x)\"}}", GN[*name])), Some(json!({"duplex": true})));
             r.wait(|x| x.topic == format!("{}.start", GN[*name]) && meta_str(x, "source_id") == Some(f.id.to_string()), 20.0);
             m.gens.insert((*ctx, *name), f.id);
+        }
+        Ev::GSpawnFinite { name, ctx } => {
+            if m.gens.contains_key(&(*ctx, *name)) || m.finite.contains_key(&(*ctx, *name)) {
+                return;
+            }
+            let f = r.append(&format!("{}.spawn", GN[*name]), Some(ctxs[*ctx]), Some("\"tick\""), None);
+            r.wait(|x| x.topic == format!("{}.stop", GN[*name]) && meta_str(x, "source_id") == Some(f.id.to_string()), 20.0);
+            m.finite.insert((*ctx, *name), f.id);
         }
         Ev::GSpawnBad { name, ctx } => {
             if m.gens.contains_key(&(*ctx, *name)) {
@@ -282,7 +293,7 @@ pub fn run_history(h: &[Ev], restart_after: usize, sig: &str) -> (Vec<F>, String
     let mut s_sorted = started.clone();
     s_sorted.sort();
     s_sorted.dedup();
-    let mut g_sorted: Vec<String> = m.gens.values().map(|i| i.to_string()).collect();
+    let mut g_sorted: Vec<String> = m.gens.values().chain(m.finite.values()).map(|i| i.to_string()).collect();
     g_sorted.sort();
     if s_sorted != g_sorted {
         fs.push(F { kind: "c17.generators.restored".into(), msg: format!("{}: generators started after restart {:?}, running before {:?}", label, s_sorted, g_sorted) });
@@ -373,6 +384,7 @@ pub fn histories(thorough: bool) -> Vec<Vec<Ev>> {
         vec![GSpawn { name: 0, ctx: 0 }, GSpawn { name: 0, ctx: 1 }],
         vec![GSpawnBad { name: 0, ctx: 0 }, GSpawn { name: 0, ctx: 1 }, GSpawn { name: 1, ctx: 1 }],
         vec![GSpawn { name: 0, ctx: 1 }, GSpawnBad { name: 0, ctx: 0 }],
+        vec![GSpawnFinite { name: 0, ctx: 0 }, GSpawnFinite { name: 0, ctx: 1 }, GSpawn { name: 1, ctx: 0 }],
         vec![CDef { name: 0, ctx: 0 }, CCall { name: 0, ctx: 0 }],
         vec![CDef { name: 0, ctx: 0 }, CDef { name: 0, ctx: 1 }, CCall { name: 0, ctx: 0 }, CCall { name: 0, ctx: 1 }],
         vec![CDef { name: 0, ctx: 1 }, CDef { name: 0, ctx: 0 }, CDef { name: 0, ctx: 1 }, CCall { name: 0, ctx: 1 }],
@@ -386,7 +398,7 @@ pub fn histories(thorough: bool) -> Vec<Vec<Ev>> {
         // every history of depth <= 3 over a reduced alphabet with the same name in both contexts
         let alpha = vec![
             HReg { name: 0, ctx: 0 }, HReg { name: 0, ctx: 1 }, HUnreg { name: 0, ctx: 0 }, HBoom { ctx: 1 }, Ping { ctx: 0 },
-            GSpawn { name: 0, ctx: 0 }, GSpawn { name: 0, ctx: 1 }, GSpawnBad { name: 0, ctx: 1 },
+            GSpawn { name: 0, ctx: 0 }, GSpawn { name: 0, ctx: 1 }, GSpawnBad { name: 0, ctx: 1 }, GSpawnFinite { name: 1, ctx: 1 },
             CDef { name: 0, ctx: 0 }, CDef { name: 0, ctx: 1 }, CDefBad { name: 0, ctx: 0 }, CDefSame { name: 0, ctx: 0 }, CCall { name: 0, ctx: 0 },
         ];
         for a in &alpha {
